@@ -489,6 +489,29 @@ def mentions_set(t, u, seen=None):
     return False
 
 
+def mentions_unique(t, u, root=None, seen=None):
+    """is a `unique` (uniqueItems) constraint attached to the root or to a position of the type"""
+    if root and root.get("unique"):
+        return True
+    seen = set() if seen is None else seen
+    k = t[0]
+    if k == "coll":
+        return mentions_unique(t[2], u, None, seen)
+    if k == "con":
+        return bool(isinstance(t[1], dict) and t[1].get("unique")) or mentions_unique(t[2], u, None, seen)
+    if k in ("tuple", "union"):
+        return any(mentions_unique(x, u, None, seen) for x in t[1])
+    if k == "map":
+        return mentions_unique(t[1], u, None, seen) or mentions_unique(t[2], u, None, seen)
+    if k == "obj":
+        if t[1] in seen:
+            return False
+        seen.add(t[1])
+        return any(bool(f.get("con") and f["con"].get("unique")) or mentions_unique(f["ty"], u, None, seen)
+                   for f in u["classes"][t[1]]["fields"])
+    return False
+
+
 def has_inexact_int(d):
     """an int that float() rounds (beyond 2^53): the model's floats are exact rationals q/4, so the int -> float conversion of
     such a datum is outside the modelled fragment"""
